@@ -12,7 +12,7 @@ import (
 func init() { propChecks["C15"] = checkC15 }
 
 const c15Long = "very/long/category/path/of/a/food/x" // 35 runes: wider than the 27 column
-const c15LongEl = "элемент с длинным именем 25" // > 20 runes, multi-byte
+const c15LongEl = "элемент с длинным именем 25"       // > 20 runes, multi-byte
 
 var c15Book = absBook{
 	{"r1", []absIng{{"cal", 2}, {"fat", -0.5}}},
